@@ -185,3 +185,12 @@ Definition with_final_crlf (d : bytes) : bytes :=
     decode to the normalised original *)
 Definition qp_roundtrip (orig : bytes) (ws : list bytes) : Prop :=
   exists d, qp_decode_lines (map unstuff_line ws) = Some d /\ with_final_crlf d = normalise orig.
+
+(* ------------------------------------------------------------------ when must a message be recoded *)
+(** octets that cannot go into a 7-bit transfer as they are: NUL and everything above 127
+    (Qremote treats NUL like an 8-bit octet) *)
+Definition octet_8bit (c : N) : bool := N.eqb c 0 || N.leb 128 c.
+Definition has_8bit (m : bytes) : bool := existsb octet_8bit m.
+Definition has_long_line (m : bytes) : bool := existsb (fun l => Nat.ltb MAXLINE (length l)) (split_lines m).
+(** the message cannot be sent as it is: 8-bit content without 8BITMIME, or a line over the limit *)
+Definition must_recode (ext8 : bool) (m : bytes) : bool := (negb ext8 && has_8bit m) || has_long_line m.
